@@ -126,7 +126,11 @@ Record(U) == /\ phase = "sent"
 Attempt == Len(ups) < MaxAttempts /\ \E U \in Built(sent) : Record(U)
 
 \* the trace form: the upstream block is what a backend recorded; it must be one the property allows
-Forward(U) == Allowed(sent, U) /\ Record(U)
+\* a failed-over attempt carries the same request (C04: "same method, path, headers, body"): what olla made of the
+\* Via / X-Forwarded-* / X-Real-IP fields for an earlier attempt of this request is what it makes of them now
+\* (additions are not piled up from attempt to attempt)
+SameForwarded(U) == \A i \in 1..Len(ups) : \A n \in Forwarded : ElsOf(ups[i], n) = ElsOf(U, n)
+Forward(U) == Allowed(sent, U) /\ SameForwarded(U) /\ Record(U)
 
 Done == /\ phase = "sent"
         /\ phase' = "done" /\ act' = "Done" /\ UNCHANGED <<sent, ups>>
